@@ -38,6 +38,56 @@ def accepted_metrics():
     return out
 
 
+def user_defined_metrics():
+    """River metrics a user writes (subclasses of river's own bases), one per combination of the two things the adapter
+    decides on: what `update` receives (whole dict / single value) and the direction (bigger / smaller is better)."""
+    from river.metrics.base import ClassificationMetric, MeanMetric, RegressionMetric
+
+    class TrueClassProbability(MeanMetric, ClassificationMetric):  # dict, bigger is better (ClassificationMetric default)
+        @property
+        def requires_labels(self):
+            return False
+
+        def _eval(self, y_true, y_pred):
+            return y_pred.get(y_true, 0.)
+
+    class MissedProbability(MeanMetric, ClassificationMetric):  # dict, smaller is better
+        @property
+        def requires_labels(self):
+            return False
+
+        @property
+        def bigger_is_better(self):
+            return False
+
+        def _eval(self, y_true, y_pred):
+            return sum(v for k, v in y_pred.items() if k != y_true)
+
+    class WithinOne(MeanMetric, RegressionMetric):  # single value, bigger is better
+        @property
+        def bigger_is_better(self):
+            return True
+
+        def _eval(self, y_true, y_pred):
+            return 1.0 if abs(y_true - y_pred) <= 1 else 0.25
+
+    class CubedError(MeanMetric, RegressionMetric):  # single value, smaller is better (RegressionMetric default)
+        def _eval(self, y_true, y_pred):
+            return abs(y_true - y_pred) ** 3
+    return [TrueClassProbability, MissedProbability, WithinOne, CubedError]
+
+
+def accepted_user_metrics():
+    from ixai.utils.validators.loss import validate_loss_function
+    out = []
+    for cls in user_defined_metrics():
+        with warnings.catch_warnings():
+            warnings.simplefilter("ignore")
+            loss = validate_loss_function(cls())
+        out.append(("user:" + cls.__name__, cls, loss._dict_input_metric))
+    return out
+
+
 def gen_pair(rng, dict_metric, style):
     if dict_metric:
         p = rng.random()
@@ -194,7 +244,13 @@ def run(tier="quick", seed=0, replay=None):
     chk.extra["accepted_metrics"] = [n for n, _, _ in metrics]
     if len(metrics) < 10:
         chk.tie_failure("river", f"only {len(metrics)} river metrics accepted by validate_loss_function: {[n for n, _, _ in metrics]}")
-    for name, cls, dm in metrics:
+    try:
+        user = accepted_user_metrics()
+    except Exception as ex:
+        user = []
+        chk.violation("user-metric-rejected", f"a user-defined river metric is not accepted as loss: {core.err_kind(ex)}: {ex}", {})
+    chk.extra["user_defined_metrics"] = [[n, "dict" if dm else "single", "bigger" if cls().bigger_is_better else "smaller"] for n, cls, dm in user]
+    for name, cls, dm in metrics + user:
         chk.case({"metric": name, "dict_input": dm}, nontrivial=True, sample=(name in ("MAE", "CrossEntropy", "Accuracy")))
         try:
             f = metric_history_fails(chk, name, cls, dm, chk.count(40, 200))
@@ -202,7 +258,7 @@ def run(tier="quick", seed=0, replay=None):
             f = None
             chk.stat("metric_harness_error:" + name)
         if f:
-            chk.violation(f"metric:{name}", f"river.metrics.{name} as loss: {f}", {"metric": name})
+            chk.violation(f"metric:{name}", f"{'user-defined river metric ' + name[5:] if name.startswith('user:') else 'river.metrics.' + name} as loss: {f}", {"metric": name})
     # plain callables (not river metrics) must pass through validate_loss_function untouched
     from ixai.utils.validators.loss import validate_loss_function as _vlf
     for fn in (lambda y_true, y_prediction: 0.0, abs, max):
